@@ -29,7 +29,8 @@ EXHAUSTIVE = {
              "x {Array1D, Mask1D} x {file, hdu}; all boolean masks with H*W <= 6 (Mask2D and masked Array2D through the hdu route, every third also through a file); all file-system "
              "scenarios {bare name, 1 dir, 2 dirs} x {directory absent, partly present, present} x {target absent, present} x overwrite "
              "x flip x {relative, absolute path}; hdu index in [-3..2] on 1- and 2-HDU files and on assembled 1-, 2-, 3-HDU files (2-D and 1-D); "
-             "histories: 17 derivations x {slim, store_native, native_binned_only} x {Array2D, Kernel2D} x flip (one of 5 partially masked shapes each) and x store_native x flip for Array1D, each observed through np.array(.native), the HDU route and the file route; 11-13 re-use templates x storage x 3 shapes (2-D) and x store_native x 3 masks (1-D); 6 Mask2D templates x 6 shapes x flip; 4 Mask1D templates x 3 masks x flip; 130 random histories",
+             "histories: 17 derivations x {slim, store_native, native_binned_only} x {Array2D, Kernel2D} x flip (one of 5 partially masked shapes each) and x store_native x flip for Array1D, each observed through np.array(.native), the HDU route and the file route; 11-13 re-use templates x storage x 3 shapes (2-D) and x store_native x 3 masks (1-D); 6 Mask2D templates x 6 shapes x flip; 4 Mask1D templates x 3 masks x flip; 130 random histories; phase 3: 16 + 9 ways of building an Array2D / Kernel2D x {file, hdu} x flip, 9 mask kinds x 4 ops x flip, 12 + 7 1-D kinds, 3 scale kinds, 2 path kinds x every file-system scenario x overwrite, "
+             "6 foreign dtypes x 3 hdu indices x 7 ops, 6 input kinds x 3 storages x 5 histories, 5 session templates x flip x 2 trees + 16 random sessions, 28 sibling cases, 40+ Imaging hdu triples, 7 scale pairs x flip x 4-6 ops",
     "thorough": "as quick with shapes <= 6x6, masks with H*W <= 9 (sampled above 2^9), 1-D lengths 1..9, plus 10x the random budget; histories: every derivation x storage x class x flip "
                 "on all 6 history shapes, every re-use template x storage x shape x flip, 1500 random histories",
 
@@ -1599,7 +1600,7 @@ def gen_phase3(tier, rng):
     for flip in (False, True):
         for hi, (h, w) in enumerate(((2, 3), (3, 1), (1, 1), (1, 4))):
             g = [[[float(10 * y + x) + 0.5, -float(y + 10 * x) - 0.25] for x in range(w)] for y in range(h)]
-            yield {"op": "sib", "kind": "grid", "flip": flip, "grid": g, "sc": [0.5, 0.25], "src": [None, "list", "f32", "fortran"][hi], "fs0": E, "paths": [[10], [2, 10]],
+            yield {"op": "sib", "kind": "grid", "flip": flip, "grid": g, "sc": [0.5, 0.25], "src": [None, "list", "f32", "fortran"][hi], "fs0": E if hi % 2 else {"dirs": [], "files": [[[10], [old_hdu(2, 2)]]]}, "paths": [[10], [2, 10]],
                    "ow": hi % 2 == 0, "k": 0, "abs": hi % 2 == 1, "pk": [None, "Path"][hi % 2]}
     # 12. Imaging.from_fits: data_hdu / noise_map_hdu / psf_hdu varied independently on multi-HDU files
     H = lambda data, s, dt=None: ({"data": data, "hdr": [["PIXSCALE", s]]} if dt is None else {"data": data, "hdr": [["PIXSCALE", s]], "dt": dt})
